@@ -67,6 +67,13 @@ def _run_driver(ctx, which):
             return Outcome(AggV("Option", 1, [it.attrs["items"][i]], "Some"))
         return Outcome(AggV("Option", 0, [], "None"))
     S(r"^<std::vec::IntoIter<JoinHandle<.*>> as Iterator>::next$", s_next)
+    def arc_drop(eng, st, v):
+        rc = v.attrs.get("rc")
+        if rc is not None:
+            rc.v -= 1
+            st.trace.append(Event("arc_drop", [v.name, rc.v], None))
+        return None
+    eng.add_drop_hook(r"Arc<dyn (feedback::)?StatusUpdater>", arc_drop)
     cands = [n for n in eng.funcs if n.startswith(which + "::<impl") and n.endswith("::copy")]
     if len(cands) != 1:
         raise EngineAbort("Driver::copy of %s not found: %r" % (which, cands))
@@ -114,6 +121,10 @@ def lemma_driver_copy(ctx):
             # C12/C07: every thread gets its own clone of the updater; copy() keeps none after returning
             good = all(any("StatusUpdater" in k for k in e.args[2]) for e in sp)
             (ctx.passed if good else ctx.fail)("C12: every spawned thread reports through a clone of the client's updater", str([e.args[2] for e in sp]))
+            # C12/C07: copy() consumes its own handle on the updater (the channel can close once the threads are done)
+            own = [e for e in ev if e.name == "arc_drop" and e.args[0] == "stat"]
+            (ctx.passed if len(own) == 1 else ctx.fail)("C12: copy() gives up its own reference to the client's updater before returning (the update channel can close)",
+                                                        "drops of the parameter: %d; %s" % (len(own), tn))
             failed = [e for e in jn if e.ret != "ok"]
             if failed:
                 (ctx.passed if is_err(p.ret) else ctx.fail)("C04: a failed or panicked thread makes copy() return Err", str(tn))
